@@ -50,7 +50,7 @@ use std::time::Duration;
 
 pub fn meta(m: &mut PropMeta) {
     m.level = "fault_enumeration";
-    m.rule = "every case = one run of the real slicec binary (private directory, watchdog 10 s) with 1..3 scripted fake generators drawn from the behaviour catalogue B (25 rows: ok with 0/1/3 files, ok + early close of stdout, missing executable, not executable, exit 1 after a valid reply, exit 255, SIGKILL after a valid reply, SIGSEGV, stderr output + valid reply + exit 0, exits without reading stdin, reads half of stdin then exits, empty reply, invalid bool, invalid UTF-8, a path ending inside a multi-byte character, bad diagnostic level, 2^62-1 string size, 2^28 announced entries, valid reply + trailing bytes, ./relative path, nested path below an existing / a missing directory, absolute path) plus truncation of a valid 2-file/2-diagnostic reply at EVERY byte, plus three single-generator rows that combine listed behaviours with more data than a pipe buffer holds (healthy with a 100 000 byte file; the same reply written BEFORE stdin is read; 100 000 bytes of stderr without reading stdin, exit 3). Families: one generator (all of B + all truncations, each with no delay and with a 50 ms delay before read / before reply / before exit); two generators (B x B; delay deviations: at most one 50 ms delay point in the run); three generators (B8^3 over the 8 most distinct rows); output-directory states {no -O, -O existing, -O missing, -O is a regular file, file already identical, file different, identical/different in the cwd without -O} for the rows whose reply names files, alone and next to a neighbour, both orders; request larger than the 64 KiB pipe buffer (big input file) for all rows alone and the non-reading rows next to B8 neighbours; every truncation next to a neighbour. Oracle from the statement with a reference decoder deciding which replies are valid: no signal / panic / hang; exactly one error line naming each failed generator and none naming a healthy one; every startable generator started exactly once and (if it reads stdin) received request ++ its own encoded arguments with the request byte-identical across the run; exit status != 0 iff an error was emitted, and != 0 if some generator failed; files of healthy replies exist below the output directory with the bytes sent; files named by failed generators are absent / untouched; a pre-existing identical file keeps inode and mtime; nothing else changes. non-trivial = at least one generator is not a plain healthy row, or the output state / payload / schedule deviates from the plain one; distinct = distinct rendered scenarios; outcome class = (exit status, error lines per generator, other error lines, started mask, paths changed).";
+    m.rule = "every case = one run of the real slicec binary (private directory, watchdog 20 s) with 1..3 scripted fake generators drawn from the behaviour catalogue B (25 rows: ok with 0/1/3 files, ok + early close of stdout, missing executable, not executable, exit 1 after a valid reply, exit 255, SIGKILL after a valid reply, SIGSEGV, stderr output + valid reply + exit 0, exits without reading stdin, reads half of stdin then exits, empty reply, invalid bool, invalid UTF-8, a path ending inside a multi-byte character, bad diagnostic level, 2^62-1 string size, 2^28 announced entries, valid reply + trailing bytes, ./relative path, nested path below an existing / a missing directory, absolute path) plus truncation of a valid 2-file/2-diagnostic reply at EVERY byte, plus three single-generator rows that combine listed behaviours with more data than a pipe buffer holds (healthy with a 100 000 byte file; the same reply written BEFORE stdin is read; 100 000 bytes of stderr without reading stdin, exit 3). Families: one generator (all of B + all truncations, each with no delay and with a 50 ms delay before read / before reply / before exit); two generators (B x B; delay deviations: at most one 50 ms delay point in the run); three generators (B8^3 over the 8 most distinct rows); output-directory states {no -O, -O existing, -O missing, -O is a regular file, file already identical, file different, identical/different in the cwd without -O} for the rows whose reply names files, alone and next to a neighbour, both orders; request larger than the 64 KiB pipe buffer (big input file) for all rows alone and the non-reading rows next to B8 neighbours; every truncation next to a neighbour. Oracle from the statement with a reference decoder deciding which replies are valid: no signal / panic / hang; exactly one error line naming each failed generator and none naming a healthy one; every startable generator started exactly once and (if it reads stdin) received request ++ its own encoded arguments with the request byte-identical across the run; exit status != 0 iff an error was emitted, and != 0 if some generator failed; files of healthy replies exist below the output directory with the bytes sent; files named by failed generators are absent / untouched; a pre-existing identical file keeps inode and mtime; nothing else changes. non-trivial = at least one generator is not a plain healthy row, or the output state / payload / schedule deviates from the plain one; distinct = distinct rendered scenarios; outcome class = (exit status, error lines per generator, other error lines, started mask, paths changed).";
     m.explanation = "fault enumeration at process level: the fault sequence of every generator child (start failure, exit status, signal, stderr, early close of stdin, every truncation and corruption class of the reply) is scripted and enumerated as a complete product, with explicit delay points as bounded schedule deviations";
     m.quick_bound = "1 generator: all 24 rows + every truncation x 4 delay variants + 3 large-data rows; 2 generators: 24 x 24 (+ <=1 delay deviation over 8 x 8); 3 generators: 8^3; output states: 11 rows x 8 states alone and with 2 neighbours; big payload: 25 + 3 rows alone + 48 pairs; truncations next to a healthy neighbour";
     m.thorough_bound = "as quick, plus: <=1 delay deviation on all 24 x 24 pairs and all 8^3 triples; 24 x 24 pairs and 8^3 triples in all 8 output states; output states x 8 neighbours x both orders; delay deviations on the big-payload rows; every truncation next to each of 8 neighbours in both orders";
